@@ -1003,6 +1003,90 @@ Definition as_tuple (as_value : pval -> res pval) (v : pval) : res pval :=
   end.
 
 (* ------------------------------------------------------------------------------------------ *)
+(* 5b. Rdata.__getstate__ / __setstate__ (copy, deepcopy, pickle) and Rdata.replace.
+       An object is its slot values and its instance dictionary; attribute names are numbers. *)
+
+Record pyobj := mkObj { oslots : list (Z * pval); odict : list (Z * pval) }.
+
+Fixpoint alist_get {V} (k : Z) (l : list (Z * V)) : option V :=
+  match l with
+  | [] => None
+  | (k', v) :: r => if k' =? k then Some v else alist_get k r
+  end.
+
+(* d[k] = v on an insertion-ordered dict: overwrite in place, else append *)
+Fixpoint alist_set {V} (k : Z) (v : V) (l : list (Z * V)) : list (Z * V) :=
+  match l with
+  | [] => [(k, v)]
+  | (k', v') :: r => if k' =? k then (k, v) :: r else (k', v') :: alist_set k v r
+  end.
+
+(* getattr(self, name): slot first, then the instance dictionary *)
+Definition ogetattr (o : pyobj) (k : Z) : option pval :=
+  match alist_get k (oslots o) with
+  | Some v => Some v
+  | None => alist_get k (odict o)
+  end.
+
+(* Rdata.__getstate__ (after the fix recorded in known_findings): every slot of the MRO
+   (getattr: AttributeError when a slot is unset), then state.update(self.__dict__) *)
+Definition getstate (cs : list Z) (o : pyobj) : res (list (Z * pval)) :=
+  do st <- fold_left (fun acc k => do st <- acc;
+                                   match alist_get k (oslots o) with
+                                   | Some v => Ok (alist_set k v st)
+                                   | None => Internal iAttributeError
+                                   end) cs (Ok []);
+  Ok (fold_left (fun acc kv => alist_set (fst kv) (snd kv) acc) (odict o) st).
+
+(* object.__setattr__(self, name, value): the slot if the class has one of that name, else the
+   instance dictionary if the class has one (some class of the MRO without __slots__), else
+   AttributeError *)
+Definition osetattr (cs : list Z) (has_dict : bool) (o : pyobj) (k : Z) (v : pval) : res pyobj :=
+  if existsb (Z.eqb k) cs then Ok (mkObj (alist_set k v (oslots o)) (odict o))
+  else if has_dict then Ok (mkObj (oslots o) (alist_set k v (odict o)))
+  else Internal iAttributeError.
+
+Definition rdcomment_id := 2.    (* the slot "rdcomment" (0 = rdclass, 1 = rdtype) *)
+
+(* Rdata.__setstate__ on a fresh cls.__new__(cls): every item through object.__setattr__, then
+   rdcomment = None if the state had none (pickles of dnspython 2.0) *)
+Definition setstate (cs : list Z) (has_dict : bool) (state : list (Z * pval)) : res pyobj :=
+  do o <- fold_left (fun acc kv => do o <- acc; osetattr cs has_dict o (fst kv) (snd kv))
+                    state (Ok (mkObj [] []));
+  match ogetattr o rdcomment_id with
+  | Some _ => Ok o
+  | None => osetattr cs has_dict o rdcomment_id VNone
+  end.
+
+(* Rdata.replace(kwargs...): `params` are the parameter names of the class's __init__ (in
+   order), `ctor` is the class constructor (it validates and normalises its arguments) *)
+Definition replace (params : list Z) (ctor : list pval -> res pyobj) (cs : list Z) (has_dict : bool)
+           (o : pyobj) (kwargs : list (Z * pval)) : res pyobj :=
+  (* for key in kwargs: rdcomment is always allowed; unknown names and rdclass/rdtype raise *)
+  let bad := existsb (fun kv => negb (fst kv =? rdcomment_id)
+                                && (negb (existsb (Z.eqb (fst kv)) params)
+                                    || (fst kv =? 0) || (fst kv =? 1))) kwargs in
+  if bad then Internal iAttributeError
+  else
+    do args <- map_res (fun k => match alist_get k kwargs with
+                                 | Some v => Ok v
+                                 | None => match ogetattr o k with
+                                           | Some v => Ok v
+                                           | None => Internal iAttributeError
+                                           end
+                                 end) params;
+    do rd <- ctor args;
+    (* rdcomment = kwargs.get("rdcomment", self.rdcomment); set (bypassing the guard) if not None *)
+    let rc := match alist_get rdcomment_id kwargs with
+              | Some v => Some v
+              | None => ogetattr o rdcomment_id
+              end in
+    match rc with
+    | Some VNone | None => Ok rd
+    | Some v => osetattr cs has_dict rd rdcomment_id v
+    end.
+
+(* ------------------------------------------------------------------------------------------ *)
 (* 6. harness interface *)
 
 Definition rd_of_obs (o : obs) : option rdata :=
@@ -1247,6 +1331,27 @@ Fixpoint obs_of_pval (v : pval) : obs :=
   | VObj z => L [I 10; I z]
   end.
 
+Definition alist_of_obs (l : list obs) : option (list (Z * pval)) :=
+  opt_map (fun o => match o with
+                    | L [I k; v] => match pval_of_obs v with Some x => Some (k, x) | None => None end
+                    | _ => None
+                    end) l.
+Definition obs_of_alist (l : list (Z * pval)) : obs :=
+  L (map (fun kv => L [I (fst kv); obs_of_pval (snd kv)]) l).
+
+(* slot values in the order of the class's slot list (N for an unset slot), then the dictionary *)
+Definition obs_of_obj (cs : list Z) (o : pyobj) : obs :=
+  L [L (map (fun k => match alist_get k (oslots o) with Some v => obs_of_pval v | None => N end) cs);
+     obs_of_alist (odict o)].
+
+(* a constructor that stores its arguments as they are under the parameter names (rdclass and
+   rdtype first) and sets rdcomment = None, as Rdata.__init__ and the typed __init__s do for
+   arguments that are already of the right type *)
+Definition ctor_plain (params : list Z) (args : list pval) : res pyobj :=
+  if Nat.eqb (length params) (length args)
+  then Ok (mkObj (alist_set rdcomment_id VNone (combine params args)) [])
+  else Internal eTypeError.
+
 Definition obs_store (s : store) : obs :=
   L (map (fun e => L [I (Z.of_nat (fst (fst e))); I (snd (fst e)); I (snd e)]) s).
 
@@ -1291,6 +1396,25 @@ Definition run (c : obs) : obs :=
       match pval_of_obs v with
       | Some v => obs_of_pval (constify v)
       | None => E eBadCase
+      end
+  | L [I 8; I _; L cs; I hd; L sl; L dc; L st] =>                 (* __getstate__ of (slots, dict); __setstate__(st) *)
+      match opt_map z_of_obs cs, alist_of_obs sl, alist_of_obs dc, alist_of_obs st with
+      | Some cs, Some sl, Some dc, Some st =>
+          L [match getstate cs (mkObj sl dc) with Ok x => obs_of_alist x | Lib e => E e | Internal e => E e end;
+             match setstate cs (hd =? 1) st with
+             | Ok o => obs_of_obj cs o
+             | Lib e => E e | Internal e => E e
+             end]
+      | _, _, _, _ => E eBadCase
+      end
+  | L [I 9; I _; L ps; L cs; I hd; L sl; L dc; L kw; L _] =>           (* replace(kwargs) with a storing constructor *)
+      match opt_map z_of_obs ps, opt_map z_of_obs cs, alist_of_obs sl, alist_of_obs dc, alist_of_obs kw with
+      | Some ps, Some cs, Some sl, Some dc, Some kw =>
+          match replace ps (ctor_plain ps) cs (hd =? 1) (mkObj sl dc) kw with
+          | Ok o => obs_of_obj cs o
+          | Lib e => E e | Internal e => E e
+          end
+      | _, _, _, _, _ => E eBadCase
       end
   | L [I 6; v; I enc; ml; I eok; I tup] =>                   (* _as_bytes / _as_tuple(_as_bytes) *)
       match pval_of_obs v, oz_of_obs ml with
